@@ -94,6 +94,9 @@ func validatorInline(p *Prog, sc *Scope) func(*ssa.Function) bool {
 		if !p.InLibrary(f) || f.Pkg == nil || f.Pkg.Pkg.Path() != modPath || opaque[f] {
 			return false
 		}
+		if f.Signature.Results().Len() == 2 && errIndex(f) == 1 && isBoolType(f.Signature.Results().At(0).Type()) {
+			return true // a check that reports (flag, err)
+		}
 		return f.Signature.Results().Len() == 1 && (errIndex(f) == 0 || isPredicate(f) || returnsResultStruct(f))
 	}
 }
@@ -281,42 +284,36 @@ func checkReturned(r *Report, m *spModel, rule string) {
 		}
 	}
 	n := 0
-	for _, b := range rf.Blocks {
-		for _, in := range b.Instrs {
-			c, ok := in.(*ssa.Call)
-			if !ok {
-				continue
-			}
-			bi, ok := c.Call.Value.(*ssa.Builtin)
-			if !ok || bi.Name() != "append" || !typeIs(sliceElem(c.Type()), modPath, "Assertion") {
-				continue
-			}
-			n++
-			cons := fmt.Sprintf("%s: assertion appended to the result list", p.FnName(rf))
-			okA := false
-			src := appendedValue(c)
-			if ld, ok := src.(*ssa.UnOp); ok {
-				// the parser hands back (assertion, err) as a result struct: *parsed.assertion under parsed.err == nil
-				if call, idx, ok := callComponent(ld.X); ok && idx < 0 {
-					inFam := false
-					if cands := p.CalleesAt(rf, call); len(cands) > 0 {
-						inFam = true
-						for _, ca := range cands {
-							if !fam[ca.Fn] {
-								inFam = false
-							}
-						}
-					}
-					if ei, okE := errComponent(call.Call.StaticCallee()); inFam && okE && ei < 0 {
-						name := "isnil(" + rc.AP(call) + "." + fieldName(call.Type(), -ei-1) + ")"
-						if B.HasVar(name) && rc.Implied(b, B.Var(name)) {
-							okA = true
-						}
-					}
+	// the response parser with the helpers it is split into (a collecting helper that is handed the parser as a function
+	// value appends on its behalf)
+	rgR := NewRegion(p, rf, 2)
+	var appendFns []*ssa.Function
+	for _, hf := range rgR.Fns {
+		if hf == rf || !fam[hf] {
+			appendFns = append(appendFns, hf)
+		}
+	}
+	for _, hf := range appendFns {
+		rc := a.Ctx(hf)
+		rc.ensureConds()
+		rf := hf
+		for _, b := range hf.Blocks {
+			for _, in := range b.Instrs {
+				c, ok := in.(*ssa.Call)
+				if !ok {
+					continue
 				}
-				if ex, ok := ld.X.(*ssa.Extract); ok && ex.Index == 0 {
-					if call, ok := ex.Tuple.(*ssa.Call); ok {
-						// the static callee, or every target of a call through a table of parser functions
+				bi, ok := c.Call.Value.(*ssa.Builtin)
+				if !ok || bi.Name() != "append" || !typeIs(sliceElem(c.Type()), modPath, "Assertion") {
+					continue
+				}
+				n++
+				cons := fmt.Sprintf("%s: assertion appended to the result list", p.FnName(rf))
+				okA := false
+				src := appendedValue(c)
+				if ld, ok := src.(*ssa.UnOp); ok {
+					// the parser hands back (assertion, err) as a result struct: *parsed.assertion under parsed.err == nil
+					if call, idx, ok := callComponent(ld.X); ok && idx < 0 {
 						inFam := false
 						if cands := p.CalleesAt(rf, call); len(cands) > 0 {
 							inFam = true
@@ -326,16 +323,36 @@ func checkReturned(r *Report, m *spModel, rule string) {
 								}
 							}
 						}
-						if inFam {
-							name := "isnil(" + rc.AP(call) + "#1)"
+						if ei, okE := errComponent(call.Call.StaticCallee()); inFam && okE && ei < 0 {
+							name := "isnil(" + rc.AP(call) + "." + fieldName(call.Type(), -ei-1) + ")"
 							if B.HasVar(name) && rc.Implied(b, B.Var(name)) {
 								okA = true
 							}
 						}
 					}
+					if ex, ok := ld.X.(*ssa.Extract); ok && ex.Index == 0 {
+						if call, ok := ex.Tuple.(*ssa.Call); ok {
+							// the static callee, or every target of a call through a table of parser functions
+							inFam := false
+							if cands := p.CalleesAt(rf, call); len(cands) > 0 {
+								inFam = true
+								for _, ca := range cands {
+									if !fam[ca.Fn] {
+										inFam = false
+									}
+								}
+							}
+							if inFam {
+								name := "isnil(" + rc.AP(call) + "#1)"
+								if B.HasVar(name) && rc.Implied(b, B.Var(name)) {
+									okA = true
+								}
+							}
+						}
+					}
 				}
+				r.Check(okA, rule, cons, p.InstrPos(in), "value of the assertion parser under err == nil", "an assertion enters the result list without having been returned by the assertion parser with a nil error")
 			}
-			r.Check(okA, rule, cons, p.InstrPos(in), "value of the assertion parser under err == nil", "an assertion enters the result list without having been returned by the assertion parser with a nil error")
 		}
 	}
 	if n == 0 {
@@ -348,6 +365,20 @@ func checkReturned(r *Report, m *spModel, rule string) {
 		}
 		v := Resolve(ret.Results[0])
 		_, isIdx := v.(*ssa.IndexAddr)
+		// picked by a helper of the response parser (first(list, errs)): every value it hands back is an element of a
+		// slice
+		if !isIdx {
+			os := rgR.Origins(RV{V: ret.Results[0], C: rgR.top})
+			all := len(os) > 0
+			for _, o := range os {
+				if _, ok := o.V.(*ssa.IndexAddr); !ok {
+					all = false
+				}
+			}
+			if all {
+				v, isIdx = os[0].V, true
+			}
+		}
 		// a copy of an element (accepted := list[0]; return &accepted)
 		if al, isA := v.(*ssa.Alloc); isA && !isIdx {
 			if iv := initStore(al); iv != nil {
